@@ -4,7 +4,7 @@ package parser
 
 // Machine-checked contracts for the parser (comment-only; compiled only with -tags verif).
 
-//@ props C08
+//@ props C08 C06 C07 C11 C15
 
 //@ pred PInv(p *Parser) := 0 <= p.peekCount && p.peekCount <= 1 && p.input == strmInput && p.lexer != nil
 //@     && (p.peekCount == 1 ==> TokOK(p.buffer[0]) && p.buffer[0].Type == strmLastT)
